@@ -540,6 +540,38 @@ func TestC10(t *testing.T) {
 			"produce": h.ActProduce, "produce2": h.ActProduce,
 			// cross lock windows: stake unit 600 s, fuse 12 momentums, pillar/sentinel cycles 1200+600 s
 			"skipAhead": func() { h.Produce(c.Int("skipAhead", 5, 130)) },
+			// a registration that pays the right amount in the wrong token (sentinel: 5000, pillar: 15000), sent by an
+			// account whose QSR deposit is sufficient - or that deposit is made first
+			"wrongTokenRegister": func() {
+				ct, need, amt := types.SentinelContract, constants.SentinelQsrDepositAmount, constants.SentinelZnnRegisterAmount
+				data := definition.ABISentinel.PackMethodPanic(definition.RegisterSentinelMethodName)
+				if c.Bool("wtr.pillar") {
+					ct, need, amt = types.PillarContract, new(big.Int).Add(constants.PillarQsrStakeBaseAmount, big.NewInt(0).Mul(constants.PillarQsrStakeIncreaseAmount, big.NewInt(8))), constants.PillarStakeAmount
+					data = definition.ABIPillars.PackMethodPanic(definition.RegisterMethodName, fmt.Sprintf("VP-wt-%d", c.Int("wtr.name", 0, 3)), h.Users[c.Pick("wtr.prod", len(h.Users))],
+						h.Users[c.Pick("wtr.reward", len(h.Users))], uint8(0), uint8(100))
+				}
+				u := h.Users[c.Pick("wtr.user", len(h.Users))]
+				dep, err := definition.GetQsrDeposit(h.A.Chain.GetFrontierAccountStore(ct).Storage(), &u)
+				if err != nil || dep == nil || dep.Qsr == nil || dep.Qsr.Cmp(need) < 0 {
+					if h.Balance(u, types.QsrTokenStandard).Cmp(need) >= 0 {
+						h.ActCall(u, ct, types.QsrTokenStandard, new(big.Int).Set(need), definition.ABICommon.PackMethodPanic(definition.DepositQsrMethodName), "deposit before a wrong-token registration")
+					}
+					return
+				}
+				var toks []types.ZenonTokenStandard
+				for _, t := range h.Pools.Tokens {
+					if t != types.ZnnTokenStandard && t != types.ZeroTokenStandard && h.Balance(u, t).Cmp(amt) >= 0 {
+						toks = append(toks, t)
+					}
+				}
+				if len(toks) == 0 {
+					return
+				}
+				z := toks[c.Pick("wtr.token", len(toks))]
+				if _, err := h.Submit(&nom.AccountBlock{Address: u, ToAddress: ct, TokenStandard: z, Amount: new(big.Int).Set(amt), Data: data}, "registration paid in "+z.String()); err == nil {
+					c.Class("registration-in-wrong-token-accepted")
+				}
+			},
 			// the owner of a pillar revokes it inside (or just before / after) its revoke window
 			"timedRevoke": func() {
 				list, err := definition.GetPillarsList(h.A.Chain.GetFrontierAccountStore(types.PillarContract).Storage(), true, definition.AnyPillarType)
